@@ -300,6 +300,13 @@ pub fn run(tier: Tier) -> (Acc, Vec<Value>) {
         let mut pool: Pool<String> = Pool::new("String");
         parse_lens_into(&mut pool, &[("A1a", dn(3, 4)), ("A1b", dn(3, 4)), ("A5b", dn(3, 4)), ("A6", dn(3, 4)), ("A3", dn(3, 4)), ("A10", dn(2, 3))], None);
         build_product_into(&mut pool, &["t", "T.1+x-"], |ty, _| Some(ty.to_owned()), tier);
+        // keys and types at the edge of validity (accepted only by a broken implementation; if they are
+        // accepted, the resulting values must still obey C19, reflexivity included)
+        for s in ["pkg:t/n?\u{212A}=v", "pkg:t/n?k=v", "pkg:t/n?K=v", "pkg:t/n?é=v", "pkg:t/n?É=v", "pkg:t/n?\u{130}=v", "pkg:\u{212A}/n", "pkg:K/n", "pkg:k/n"] {
+            if let Ok(Ok(p)) = guarded(|| <String as PFlavor>::parse(s)) {
+                pool.add(p, || json!({"parsed": s}));
+            }
+        }
         reps.push(check_pool(&pool, &mut acc));
     }
     #[cfg(feature = "smart")]
